@@ -207,7 +207,7 @@ func runOnce(c ccase, tail []byte, attempt int) (res batch.Result, again bool) {
 				f = feat("family", e.Family, "class", e.Class) // what bio-rd did instead is in the detail
 			}
 			res.Add("notification", f,
-				"%s: the only defect is %s/%s, RFC 4271 §6 asks for NOTIFICATION %s and a closed connection; bio-rd wrote NOTIFICATIONs [%s], connection closed: %v, state afterwards %s; stream %s",
+				"%s: the defect is %s/%s, RFC 4271 §6 asks for NOTIFICATION %s and a closed connection; bio-rd wrote NOTIFICATIONs [%s], connection closed: %v, state afterwards %s; stream %s",
 				where, e.Family, e.Class, allowedText(e.Allowed), sess2.NotifText(s), closed, s.State(), c.Tail)
 		}
 	}
@@ -372,7 +372,7 @@ func main() {
 	vf.Main("C21", "exploration", func(r *vf.Run) {
 		r.Watchdog("wedged")
 		r.Watchdog("reconnect")
-		r.Rule("byte streams delivered to a session cut at OpenSent / OpenConfirm / Established (Established: after 0–2 more valid UPDATE/KEEPALIVE; a third of the streams arrives in 2–4 pieces). Single-defect streams: every header length 0…18 and the 4097…65535 boundaries × 4 message types × 3 cuts, lengths 19…4096 the type rules out, every marker byte, unknown types, random garbage; OPEN with version ≠ 4, identifier 0, hold time 1/2, wrong AS; valid classic UPDATEs with exactly one RFC 4271 §6.3 defect (length sums, fixed attribute sizes, AS_PATH/COMMUNITIES sizes, prefix length 33+, short NLRI, missing ORIGIN/AS_PATH/NEXT_HOP, ORIGIN value, segment type, attribute flags, unrecognised well-known attribute, attribute twice) confirmed by the independent classifier. OPEN capability space at OpenSent (survival, collateral and reconnect only; half of the OPENs are followed by KEEPALIVE + a classic UPDATE so that what was negotiated is used): the peer's own valid OPEN with one ADD-PATH tuple over AFI {1,2,0,25,65535,…} × SAFI {1,2,128,…} × send/receive {0…4,…} — alone, next to the tuples of the configured families, or behind the multiprotocol capability of that family — on a single-family (IPv4 only) and on a dual-family peer, so tuples for configured, known-but-unconfigured and unknown families all occur on both; multiprotocol and extended-next-hop capabilities over the same AFI × SAFI grid; role values, no capability at all, every capability twice, several ADD-PATH / 4-octet-AS capabilities, unknown capability codes, capabilities bio-rd knows with a value size their definition rules out; one optional parameter for all or one per capability. Multi-defect streams: attribute type sweep 0…255 × declared length 0…8 × flag nibbles, MP_REACH/MP_UNREACH without NLRI over AFI/SAFI/next-hop-length, NLRI with host bits, 1–3 spliced mutants of the valid corpus, valid control streams. distinct_nontrivial = distinct (generator, cut, what bio-rd did: closed with which NOTIFICATIONs / stayed open)")
+		r.Rule("byte streams delivered to a session cut at OpenSent / OpenConfirm / Established (Established: after 0–2 more valid UPDATE/KEEPALIVE; a third of the streams arrives in 2–4 pieces). Single-defect streams: every header length 0…18 and the 4097…65535 boundaries × 4 message types × 3 cuts, lengths 19…4096 the type rules out, every marker byte, unknown types, random garbage; OPEN with version ≠ 4, identifier 0, hold time 1/2, wrong AS; OPEN wrong in two places at once (version 0/3/5/255 or identifier 0 x optional parameters that cannot be decoded: parameter type 1 or 255, ADD-PATH / extended-next-hop capability of a size that is no multiple of the tuple, a 2-byte 4-octet-AS capability at the end of the message; any OPEN Message Error NOTIFICATION is accepted); valid classic UPDATEs with exactly one RFC 4271 §6.3 defect (length sums, fixed attribute sizes, AS_PATH/COMMUNITIES sizes, prefix length 33+, short NLRI, missing ORIGIN/AS_PATH/NEXT_HOP, ORIGIN value, segment type, attribute flags, unrecognised well-known attribute, attribute twice) confirmed by the independent classifier. OPEN capability space at OpenSent (survival, collateral and reconnect only; half of the OPENs are followed by KEEPALIVE + a classic UPDATE so that what was negotiated is used): the peer's own valid OPEN with one ADD-PATH tuple over AFI {1,2,0,25,65535,…} × SAFI {1,2,128,…} × send/receive {0…4,…} — alone, next to the tuples of the configured families, or behind the multiprotocol capability of that family — on a single-family (IPv4 only) and on a dual-family peer, so tuples for configured, known-but-unconfigured and unknown families all occur on both; multiprotocol and extended-next-hop capabilities over the same AFI × SAFI grid; role values, no capability at all, every capability twice, several ADD-PATH / 4-octet-AS capabilities, unknown capability codes, capabilities bio-rd knows with a value size their definition rules out; one optional parameter for all or one per capability. Multi-defect streams: attribute type sweep 0…255 × declared length 0…8 × flag nibbles, MP_REACH/MP_UNREACH without NLRI over AFI/SAFI/next-hop-length, NLRI with host bits, 1–3 spliced mutants of the valid corpus, valid control streams. distinct_nontrivial = distinct (generator, cut, what bio-rd did: closed with which NOTIFICATIONs / stayed open)")
 		r.Assume("a fresh server per stream: victim peer and canary peer share one bgpServer, VRF and Loc-RIB",
 			"a damaged multiprotocol attribute is not judged on the NOTIFICATION (RFC 4760 §7 allows ignoring it)",
 			"where RFC 4271 §8.2.2 reads as FSM error (code 5) for a message the state does not take, or for header/OPEN errors in Established, code 5 is accepted next to the §6 code",
@@ -411,6 +411,7 @@ func main() {
 			r.Require("canary_checks_passed", int64(r.N(2500, 40000)))
 			r.Require("valid_streams_left_established", 50)
 			r.Require("streams_with_open_caps", 300)
+		r.Require("streams_with_open_two_faults", 90)
 			r.Require("streams_with_open_addpath_tuple_unicast_family_absent_on_single_family_peer", 15)
 			r.Require("streams_with_open_addpath_tuple_unconfigured_family", 3)
 			r.Require("streams_with_open_addpath_tuple_unknown_afi_unicast", 10)
